@@ -4,6 +4,9 @@ import json, os, subprocess
 HERE = os.path.dirname(os.path.abspath(__file__))
 
 CHECKS = {
+ "C03": dict(cat="fault_enumeration", tech="runtime monitoring / fault injection: every typed site of generated well-typed programs x a fixed catalogue of type-breaking edits, real compiler run on each mutant; exit class, diagnostic position and a run sentinel are observed",
+   text="Accepted-and-clean programs of the type-directed generator record their typed sites (initializer, re-assignment, argument, argument count, return, condition, operand, index, indexed value, field, method, callee, loop bound, map key/value, op-assign) in module/function/closure/method/constructor/loop/branch contexts; every applicable fault (wrong type, nil / optional into non-optional, unknown name/field/method, non-callable, non-indexable, surplus/missing argument, non-bool condition, unsupported operand) is applied one at a time, plus a catalogue of whole-program faults. Each mutant must exit 1 (not panic), print a diagnostic naming main.ms:line:col and must not print the sentinel first statement; a sample is cross-checked with the `compile` subcommand (no main.mmm may appear).",
+   note="Only edits that are ill-typed under every reading are used (str + any, str * int, numeric kind mixing, int into int? are legal). Bases the compiler rejects are dropped.", ref="§3 C03"),
  "C02": dict(cat="exploration", tech="runtime monitoring: type-directed generated programs + boundary catalogue; run-time kind of every printed value (H-KIND hook) compared with the static type text of `typeof`, failures classified against the language-defined whitelist",
    text="Seeded type-directed programs (classes, aliases, helper functions, typed variable pool of every type constructor, statements in module/function/closure/method/constructor/loop/branch contexts) and a catalogue of boundary cases of the typing rules are run with typed printing. An accepted program must end ok or with a language-defined dynamic failure (anything else - 'X is invalid', 'not a function', load before store, ... - is a dynamic type error), and for each `typeof e` / `e` pair the run-time kind tree must conform to the static type. Held = no deviation other than listed known findings.",
    note="Trusted: H-KIND kind printer; the whitelist of defined failure messages in core.classify_failure; generator over-approximates typing (rejected programs are outside the quantifier and only counted).", ref="§3 C02"),
